@@ -346,9 +346,9 @@ type outcome struct {
 }
 
 var (
-	hangConfirm  = 1500 * time.Millisecond // blocked with an unchanging stack for this long = hang
-	hangHardCap  = 20 * time.Second
-	gidRx        = regexp.MustCompile(`^goroutine (\d+) \[`)
+	hangConfirm = 1500 * time.Millisecond // blocked with an unchanging stack for this long = hang
+	hangHardCap = 20 * time.Second
+	gidRx       = regexp.MustCompile(`^goroutine (\d+) \[`)
 )
 
 func topPerkeepFrame(stack string) string {
